@@ -125,9 +125,9 @@ func bpOp(t *sim.Tape, uniq string) fsx.Op {
 	kinds := []string{
 		"Stat", "Lstat", "ReadDir", "ReadFile", "WriteFile", "Mkdir", "MkdirAll", "Remove", "RemoveAll", "Rename", "Link", "OpenFile", "Create", "Open",
 		"Truncate", "Chmod", "Chtimes", "Chdir", "Getwd", "Abs", "Glob", "WalkDir", "CreateTemp", "MkdirTemp", "FRead", "FWrite", "FClose", "FName", "FStat",
-		"FReadDir", "FChdir", "Exists", "Chown",
+		"FReadDir", "FChdir", "Exists", "Chown", "FWriteString", "FWriteAt", "FTruncate", "FSeek", "FReaddirnames", "FSync", "FChmod",
 	}
-	weights := []int{3, 2, 3, 4, 4, 3, 2, 3, 2, 4, 2, 3, 2, 2, 1, 1, 1, 4, 3, 2, 2, 1, 1, 1, 2, 2, 1, 2, 1, 1, 1, 1, 1}
+	weights := []int{3, 2, 3, 4, 4, 3, 2, 3, 2, 4, 2, 3, 2, 2, 1, 1, 1, 4, 3, 2, 2, 1, 1, 1, 2, 2, 1, 2, 1, 1, 1, 1, 1, 2, 1, 1, 1, 1, 1, 1}
 	o := fsx.Op{K: kinds[t.Weighted(weights)]}
 
 	switch o.K {
@@ -158,9 +158,19 @@ func bpOp(t *sim.Tape, uniq string) fsx.Op {
 		o.P, o.Q, o.H = []string{"/d", "/e", "/..", "/x"}[t.Int(4)], "t*", t.Int(3)
 	case "FRead":
 		o.H, o.N = t.Int(3), 8
-	case "FWrite":
+	case "FWrite", "FWriteString":
 		o.H, o.Data = t.Int(3), uniq
-	case "FReadDir":
+	case "FWriteAt":
+		o.H, o.Data, o.Size = t.Int(3), uniq, int64(t.Int(4))
+	case "FTruncate":
+		o.H, o.Size = t.Int(3), int64(t.Int(4))
+	case "FSeek":
+		o.H, o.Size, o.N = t.Int(3), int64(t.Int(4)), t.Int(3)
+	case "FSync":
+		o.H = t.Int(3)
+	case "FChmod":
+		o.H, o.Perm = t.Int(3), 0o600
+	case "FReadDir", "FReaddirnames":
 		o.H, o.N = t.Int(3), -1
 	case "FClose", "FName", "FStat", "FChdir":
 		o.H = t.Int(3)
